@@ -46,8 +46,18 @@ Demanded(op, p, class) ==
     \/ op \in {"Dxx", "Dyy"} /\ class = "interior"
 Exact(op, p, x, y) == CASE op = "Dx" -> Px(p, x, y) [] op = "Dy" -> Py(p, x, y) [] op = "Dxx" -> Pxx(p) [] op = "Dxy" -> Pxy(p) [] op = "Dyy" -> Pyy(p)
 
-DerivCases == {[kind |-> "deriv", g |-> g, op |-> op, p |-> p, ix |-> ix, iy |-> iy] :
-                 g \in {gg \in Grids : gg.x0 = 1}, op \in Ops, p \in Fields, ix \in 0..(IF Deep THEN 5 ELSE 3), iy \in 0..(IF Deep THEN 5 ELSE 3)}
+\* The voxels are handed over as a list; the two index maps say where each sits in the grid (column ix, row jy counted from the
+\* top).  The order of the list is the caller's: column by column from the top (the docstring's), column by column from the
+\* bottom, row by row, or columns from the right.  Number = position (from 0) of cell (ix, iy), iy counted upwards.
+Orders == {"columns_down", "columns_up", "rows", "columns_from_right"}
+Number(o, g, ix, iy) == CASE o = "columns_down"       -> ix * g.ny + (g.ny - 1 - iy)
+                          [] o = "columns_up"         -> ix * g.ny + iy
+                          [] o = "rows"               -> (g.ny - 1 - iy) * g.nx + ix
+                          [] o = "columns_from_right" -> (g.nx - 1 - ix) * g.ny + (g.ny - 1 - iy)
+Numbering(o, g) == {<<ix, iy, Number(o, g, ix, iy)>> : ix \in 0..(g.nx - 1), iy \in 0..(g.ny - 1)}
+
+DerivCases == {[kind |-> "deriv", order |-> o, g |-> g, op |-> op, p |-> p, ix |-> ix, iy |-> iy] :
+                 o \in Orders, g \in {gg \in Grids : gg.x0 = 1}, op \in Ops, p \in Fields, ix \in 0..(IF Deep THEN 5 ELSE 3), iy \in 0..(IF Deep THEN 5 ELSE 3)}
 
 \* --- ADMT: D = Dperp n n^T + Dpar t t^T with n = grad(psi)/|grad(psi)|, Dpar = 1, Dperp = 1/a.
 \* a * N^2 * R * div(D grad f) as an integer (N = |grad psi|^2, R = x):
@@ -70,8 +80,8 @@ Den(psi, a, x, y) == LET N == Px(psi, x, y) * Px(psi, x, y) + Py(psi, x, y) * Py
 
 FluxMaps == {<<0, 1, 0, 0, 0, 0>>, <<0, 1, 2, 0, 0, 0>>,                    \* linear flux maps
              <<0, 1, 0, 1, 1, 2>>, <<0, 0, 0, 1, 0, 1>>, <<3, 2, 1, 1, 0, -1>>}   \* curved (quadratic) flux maps
-AdmtCases == {[kind |-> "admt", g |-> g, psi |-> psi, p |-> f, a |-> a, ix |-> ix, iy |-> iy] :
-                g \in {gg \in Grids : gg.nx >= 3 /\ gg.ny >= 3 /\ gg.dx = 1 /\ gg.dy = 1 /\ gg.x0 = 1},
+AdmtCases == {[kind |-> "admt", order |-> o, g |-> g, psi |-> psi, p |-> f, a |-> a, ix |-> ix, iy |-> iy] :
+                o \in {"columns_down", "rows"}, g \in {gg \in Grids : gg.nx >= 3 /\ gg.ny >= 3 /\ gg.dx = 1 /\ gg.dy = 1 /\ gg.x0 = 1},
                 psi \in FluxMaps, f \in {<<3, 0, 0, 0, 0, 0>>, <<4, -1, 2, 0, 0, 0>>, <<2, -1, 0, 1, 1, -1>>, <<0, 1, 1, 0, 0, 2>>},
                 a \in {1, 2, 10}, ix \in 1..(IF Deep THEN 4 ELSE 2), iy \in 1..(IF Deep THEN 4 ELSE 2)}
 
@@ -86,6 +96,7 @@ Next == UNCHANGED c
 Spec == Init /\ [][Next]_c
 
 InGrid == c.ix < c.g.nx /\ c.iy < c.g.ny
+NumberingIsBijective == \A o \in Orders : {t[3] : t \in Numbering(o, c.g)} = 0..(c.g.nx * c.g.ny - 1)
 X == c.g.x0 + c.ix * c.g.dx
 Y == c.g.y0 + c.iy * c.g.dy
 Interior == CellClass(c.g, c.ix, c.iy) = "interior"
@@ -99,9 +110,9 @@ AnnihilatesConstants == (c.kind = "admt" /\ Deg(c.p) = 0) => Num(c.psi, c.p, c.a
 EmitCase == IF ~InGrid THEN TRUE
             ELSE IF c.kind = "deriv"
                  THEN IF Demanded(c.op, c.p, CellClass(c.g, c.ix, c.iy))
-                      THEN PrintT(ToJson([case |-> c, x |-> X, y |-> Y, class |-> CellClass(c.g, c.ix, c.iy), expect |-> Exact(c.op, c.p, X, Y)]))
+                      THEN PrintT(ToJson([case |-> c, numbering |-> Numbering(c.order, c.g), x |-> X, y |-> Y, class |-> CellClass(c.g, c.ix, c.iy), expect |-> Exact(c.op, c.p, X, Y)]))
                       ELSE TRUE
                  ELSE IF Interior /\ Den(c.psi, c.a, X, Y) # 0
-                      THEN PrintT(ToJson([case |-> c, x |-> X, y |-> Y, num |-> Num(c.psi, c.p, c.a, X, Y), den |-> Den(c.psi, c.a, X, Y)]))
+                      THEN PrintT(ToJson([case |-> c, numbering |-> Numbering(c.order, c.g), x |-> X, y |-> Y, num |-> Num(c.psi, c.p, c.a, X, Y), den |-> Den(c.psi, c.a, X, Y)]))
                       ELSE TRUE
 =============================================================================
